@@ -15,8 +15,10 @@
 //!                  MAX_INLINE_SCOPE_HELP_DEPTH (=64, threadpool/mod.rs).
 //!  * `rolock`      ReadOptimizedLock reader/writer mixes over a multi-word record.
 //!  * `cvec`        ConcurrentVec: concurrent push + prefix readers (InternTable pattern),
-//!                  concurrent resize_with + cell access (NotificationList pattern),
-//!                  sequential push/resize_with/read mixes.
+//!                  concurrent resize_with + cell access (NotificationList pattern, optionally
+//!                  after a run of pushes so that head < backing length),
+//!                  sequential push/resize_with/read mixes (incl. the trigger of the repaired
+//!                  resize_with defect; see EXCLUDE_KNOWN_RESIZE_TRIGGER).
 //!  * `pvw`         ParallelVecWriter ranged writes (write_slice / write_contents /
 //!                  write_cell_slice) with prefix readers (row_buffer pattern).
 //!  * `notify`      NotificationList rounds, Notification wait/notify, ResettableOnceLock
@@ -43,6 +45,11 @@ use std::sync::{Barrier, Mutex};
 use std::time::Duration;
 
 pub const KNOWN_RESIZE_SIG: &str = "concurrentvec-resize-with-uninit-slots";
+/// The resize_with defect (slots in [head, min(backing_len, n-1)) never written) was repaired in the repo
+/// (resize_with now writes every slot in head..new_len). While it was open, the cvec generators were steered
+/// away from its trigger; now they freely produce push/resize_with mixes with head < backing length (both the
+/// "uninitialised" and the "stale value of an earlier fill" manifestation). A recurrence keeps the root-cause signature.
+const EXCLUDE_KNOWN_RESIZE_TRIGGER: bool = false;
 /// threadpool/mod.rs: MAX_INLINE_SCOPE_HELP_DEPTH
 const INLINE_HELP_LIMIT: usize = 64;
 
@@ -138,6 +145,10 @@ pub struct CvecPushSc {
 pub struct CvecCellsSc {
     /// 0 = ConcurrentVec::new()
     pub cap: u16,
+    /// cells pushed (sequentially) before the threads start: the backing vector is then longer than
+    /// `head`, with never-initialised slots behind it (trigger of the repaired resize_with defect)
+    #[serde(default)]
+    pub prelude: u8,
     pub threads: Vec<Vec<u16>>,
     pub gap: Pt,
 }
@@ -444,7 +455,13 @@ fn dec_cvec(src: &mut Src) -> (Scenario, u32) {
                 let k = 1 + src.below(60);
                 threads.push((0..k).map(|_| src.below(hi) as u16).collect());
             }
-            (Scenario::CvecCells(CvecCellsSc { cap, threads, gap: dec_rep_pt(src, 60) }), 0)
+            let mut prelude = *src.pick(&[0u8, 3, 5, 9, 17, 33]);
+            let mut steered = 0;
+            if EXCLUDE_KNOWN_RESIZE_TRIGGER && prelude > 0 {
+                prelude = 0;
+                steered = 1;
+            }
+            (Scenario::CvecCells(CvecCellsSc { cap, prelude, threads, gap: dec_rep_pt(src, 60) }), steered)
         }
         _ => {
             let cap = *src.pick(&[1u16, 2, 8, 128]);
@@ -464,7 +481,7 @@ fn dec_cvec(src: &mut Src) -> (Scenario, u32) {
                         let target = (head as i64 + src.range(-2, 12)).clamp(0, 400) as u16;
                         let fill = 7 + 1000 * (1 + src.below(9) as u64);
                         ops.push(SeqOp::Resize(target, fill));
-                        if *seq_triggers(&ops).last().unwrap() {
+                        if EXCLUDE_KNOWN_RESIZE_TRIGGER && *seq_triggers(&ops).last().unwrap() {
                             // steer away from the known defect: grow by exactly one slot (never a trigger)
                             ops.pop();
                             ops.push(SeqOp::Resize(head as u16 + 1, fill));
@@ -657,6 +674,9 @@ fn classify(sc: &Scenario, out: &mut Outcome) {
         }
         Scenario::CvecCells(s) => {
             out.class("cvec:concurrent-resize_with(NotificationList-pattern)");
+            if s.prelude > 0 {
+                out.class("cvec:concurrent-resize_with-after-pushes(head<backing-len)");
+            }
             out.nontrivial = s.threads.len() >= 2;
         }
         Scenario::CvecSeq(s) => {
@@ -665,7 +685,7 @@ fn classify(sc: &Scenario, out: &mut Outcome) {
                 out.class("cvec:seq-has-resize_with");
             }
             if seq_triggers(&s.ops).iter().any(|b| *b) {
-                out.class("cvec:seq-known-trigger(golden)");
+                out.class("cvec:seq-resize_with-over-existing-backing-slots(repaired-defect-trigger)");
             }
             out.nontrivial = false;
         }
@@ -911,7 +931,9 @@ pub fn run(rep: &Report) {
     );
     rep.assume("only usages a real caller makes: push||push||read on ConcurrentVec (InternTable), resize_with||resize_with||read (NotificationList), no push/resize_with while the same thread holds a read handle, NotificationList::reset never concurrent with notify, ResettableOnceLock::reset only through &mut, ParallelVecWriter reads limited to the initial prefix or the thread's own completed write");
     rep.assume("the OS schedule is sampled, not enumerated: absence of a violation is evidence over the sampled interleavings only");
-    rep.assume("sequential ConcurrentVec scenarios are steered away from the known resize_with trigger (counter excluded_known_resize_trigger); one golden case re-demonstrates it");
+    if EXCLUDE_KNOWN_RESIZE_TRIGGER {
+        rep.assume("sequential ConcurrentVec scenarios are steered away from the known resize_with trigger (counter excluded_known_resize_trigger); one golden case re-demonstrates it");
+    }
     let reps = rep.tier.pick(3, 6);
     let tree = stage_for(rep, Kind::Tree, reps);
     let rolock = stage_for(rep, Kind::RoLock, reps);
@@ -923,8 +945,11 @@ pub fn run(rep: &Report) {
     rep.run_regressions(&cvec);
     rep.run_regressions(&pvw);
     rep.run_regressions(&notify);
-    // golden case: push x5; resize_with(8, || 7); read all  (known finding until the repo is repaired)
-    rep.run_one(&cvec, &golden_resize_case());
+    // golden case: push x5; resize_with(8, || 7); read all  (the repaired resize_with defect: must pass)
+    // (C19_SKIP_GOLDEN is a sensitivity-testing switch: shows that the random cvec stage finds a regression by itself)
+    if std::env::var("C19_SKIP_GOLDEN").is_err() {
+        rep.run_one(&cvec, &golden_resize_case());
+    }
     let (nt, nr, nc, np, nn) = match rep.tier {
         Tier::Quick => (500, 150, 200, 140, 180),
         Tier::Thorough => (12_000, 2500, 4000, 2500, 3000),
@@ -1175,6 +1200,9 @@ fn exec_tree(t: &TreeSc, reps: u32, st: &mut Stats) {
             bump(st, "class:tree:ran-on-backup-worker", 1);
         }
         bump(st, "tree_scopes_completed", 1);
+        if facts.nesting > INLINE_HELP_LIMIT {
+            bump(st, "class:tree:completed-with-nesting>64", 1);
+        }
         ctxs.push(ctx);
     }
     drop(pools); // joins all workers: nothing can run any more
@@ -1400,6 +1428,8 @@ fn exec_cvec_push(sc: &CvecPushSc, reps: u32, st: &mut Stats) {
     check_no_unexpected_panic("cvec-push");
 }
 
+const CELL_BASE: u64 = 1000;
+
 fn exec_cvec_cells(sc: &CvecCellsSc, reps: u32, st: &mut Stats) {
     let mut want: BTreeMap<usize, u64> = BTreeMap::new();
     for t in &sc.threads {
@@ -1407,14 +1437,18 @@ fn exec_cvec_cells(sc: &CvecCellsSc, reps: u32, st: &mut Stats) {
             *want.entry(i as usize).or_insert(0) += 1;
         }
     }
-    let want_len = want.keys().next_back().map(|m| m + 1).unwrap_or(0);
+    let want_len = want.keys().next_back().map(|m| m + 1).unwrap_or(0).max(sc.prelude as usize);
     for r in 0..reps {
         let v: ConcurrentVec<AtomicU64> = if sc.cap == 0 { ConcurrentVec::new() } else { ConcurrentVec::with_capacity(sc.cap as usize) };
+        for _ in 0..sc.prelude {
+            v.push(AtomicU64::new(CELL_BASE));
+        }
         on_threads("cvec-cells", sc.threads.len(), |ti| {
             for &i in &sc.threads[ti] {
                 let i = i as usize;
                 // NotificationList::notify: resize_with(index + 1, default), then read()[index]
-                v.resize_with(i + 1, AtomicU64::default);
+                // (non-zero fill so that a never-written slot that happens to be zero memory is noticed)
+                v.resize_with(i + 1, || AtomicU64::new(CELL_BASE));
                 {
                     let g = v.read();
                     if g.len() <= i {
@@ -1427,13 +1461,14 @@ fn exec_cvec_cells(sc: &CvecCellsSc, reps: u32, st: &mut Stats) {
         });
         let g = v.read();
         if g.len() != want_len {
-            fail("cvec-resize-length-wrong", format!("repetition {r}: largest resize_with target {want_len}, read() has {} slots", g.len()));
+            fail("cvec-resize-length-wrong", format!("repetition {r}: largest resize_with target / pushes give {want_len} slots, read() has {}", g.len()));
         }
         for (i, c) in g.iter().enumerate() {
             let got = c.load(Ordering::SeqCst);
-            let w = want.get(&i).copied().unwrap_or(0);
+            let w = CELL_BASE + want.get(&i).copied().unwrap_or(0);
             if got != w {
-                fail("cvec-resize-cell-lost-or-garbage", format!("repetition {r}: cell {i} was incremented {w} times through read()[{i}] but holds {got} (a slot was re-initialised, lost or never initialised)"));
+                let sig = if sc.prelude > 0 { KNOWN_RESIZE_SIG } else { "cvec-resize-cell-lost-or-garbage" };
+                fail(sig, format!("repetition {r}: {} pushes, then concurrent resize_with(i+1, || {CELL_BASE}) + read()[i] += 1: cell {i} should hold {w} but holds {got} (slot never initialised, re-initialised or lost)", sc.prelude));
             }
         }
         bump(st, "cvec_cell_ops", want.values().sum());
